@@ -69,7 +69,7 @@ def environments(tier):
                         for ctx in (('dense',) if tier == 'quick' else ('dense', 'sparse')):
                             for rwd in (('list',) if tier == 'quick' else M.RWD_KINDS):
                                 if cseq is not None and (n == 4 or rwd not in ('list', 'binary')): continue
-                                d = {'n': n, 'ctx': ctx, 'acts': list(acts), 'rwd': rwd, 'log': list(LOG_ALL), 'extras': 1, 'batch': batch}
+                                d = {'n': n, 'ctx': ctx, 'acts': list(acts), 'rwd': rwd, 'log': list(LOG_ALL), 'extras': 1, 'batch': batch, 'fam': 'F3'}
                                 if cseq is not None: d['cseq'] = cseq
                                 d = emit(d)
                                 if d: yield d
@@ -101,7 +101,9 @@ class C06(Check):
     LEVEL = 'exploration'
     ENGINE = 'ENUM'
     RULE = ('cases = (environment descriptor, learn mode, eval mode, recording-learner spec), each run for every record set of the tier; '
-            'environments are two exhaustive products (data shapes: context kind x action-set sequence n<=3 x reward kind x batching; field '
+            'environments are three exhaustive products (data shapes: context kind x action-set sequence n<=3 x reward kind x batching; '
+            'recurrence: every sequence in {A,B}^3 (thorough also ^4) for pairs of action sets with/without 0 or 1 (ints, floats) and other kinds x '
+            'contexts distinct or returning to an earlier value x batching; field '
             'presence: actions/rewards/each subset of logged action,reward,probability/0-2 extra fields x batching); a case is non-trivial '
             'when the environment was accepted, the learner received at least one call and at least one row was compared')
     ASSUMPTIONS = [
@@ -126,7 +128,9 @@ class C06(Check):
                  'recording learner vs. a plain-Python reference model of the documented loop (call trace and rows)')
     LEVEL_TEXT = ('Environments: (a) data shapes = action-set sequences of length 1..3 over 5 action kinds x 4 reward kinds x 5 context kinds x '
                   'unbatched/Batch(2) (quick: sequences x reward kinds with a dense context plus context kinds x 3 sequences; thorough: the full product '
-                  'incl. all ordered pairs of action kinds); (b) field presence = actions/rewards present or not x every subset of logged '
+                  'incl. all ordered pairs of action kinds); (a2) recurrence = every action-set sequence in {A,B}^3 (A,B,A, A,A,B, .. ; thorough also '
+                  '{A,B}^4) for pairs of sets that do / do not contain 0 or 1 as ints or floats ([0,1,2]/[3,4,5], [0,1]/[1,2], [0.0,0.5,1.0]/[2.5,3.5], ..) '
+                  'and other kinds, with contexts that are distinct or return to an earlier value; (b) field presence = actions/rewards present or not x every subset of logged '
                   'action/reward/probability x 0..2 extras x context present or not x batching. Each is evaluated by the real SequentialCB for learn in '
                   '{on,off,ips,None} x eval in {on,ips,None} x learner formats x record sets (quick: default, 7 singletons, all 7, none; thorough: these '
                   'on every environment and all 128 subsets on the quick environments); the full call trace seen by the learner and all rows are '
@@ -145,6 +149,8 @@ class C06(Check):
                         yield {'env': env, 'learn': learn, 'eval': ev, 'lrn': lrn, 'records': 'quick'}
         if tier != 'quick':
             for env in environments('quick'):
+                # record subsets are orthogonal to action/context recurrence: of F3 only the 0/1 <-> no-0/1 int pair gets all 128 subsets
+                if env.get('fam') == 'F3' and ('cseq' in env or not set(env['acts']) <= {'zo3', 'hi3'}): continue
                 for lrn in learners('quick', env['batch']):
                     for learn in LEARNS:
                         for ev in EVALS:
